@@ -12,8 +12,61 @@ import (
 // Locker is sync.Locker.
 type Locker = sync.Locker
 
-// Pool is the real sync.Pool (never blocks, no ordering semantics).
-type Pool = sync.Pool
+// Pool replaces sync.Pool with a deterministic model: a LIFO free list that is emptied at
+// the start of every execution (the real pool's contents depend on the GC and on earlier
+// executions, which would make schedules irreproducible). Get and Put are scheduling
+// points: which thread recycles an object first is a scheduling decision.
+type Pool struct {
+	New   func() any
+	items []any
+	gen   uint64
+	real  sync.Pool
+}
+
+func (p *Pool) sync() bool {
+	g := vsched.Generation()
+	if g == 0 {
+		return false
+	}
+	if p.gen != g {
+		p.gen = g
+		p.items = nil
+	}
+	return true
+}
+
+// Get returns the most recently Put object of this execution, or New().
+func (p *Pool) Get() any {
+	if !p.sync() {
+		if p.real.New == nil {
+			p.real.New = p.New
+		}
+		return p.real.Get()
+	}
+	vsched.Point("Pool.Get")
+	if n := len(p.items); n > 0 {
+		x := p.items[n-1]
+		p.items = p.items[:n-1]
+		return x
+	}
+	if p.New != nil {
+		return p.New()
+	}
+	return nil
+}
+
+// Put recycles x.
+func (p *Pool) Put(x any) {
+	if x == nil {
+		return
+	}
+	if !p.sync() {
+		p.real.Put(x)
+		return
+	}
+	vsched.Point("Pool.Put")
+	p.items = append(p.items, x)
+}
 
 // Mutex replaces sync.Mutex.
 type Mutex struct {
